@@ -4,7 +4,7 @@ use blots_core::{
     environment::Environment,
     error::RuntimeError,
     expressions::{evaluate_pairs, pairs_to_expr_with_comments},
-    formatter::{format_expr, join_statements_with_spacing},
+    formatter::{format_expr, join_statements_with_spacing, protect_leading_minus},
     functions::get_built_in_function_idents,
     heap::{CONSTANTS, Heap},
     parser::{Rule, Token, get_pairs, get_tokens},
@@ -491,6 +491,9 @@ pub fn format_blots(source: &str, max_columns: Option<usize>) -> Result<JsValue,
                         format_expr(&expr, max_columns)
                     }
                 };
+
+                // A statement after another one must not start with `-` (it would continue it)
+                let formatted = protect_leading_minus(formatted, formatted_statements.is_empty());
 
                 // Check for end-of-line comment (second element in statement)
                 let final_formatted = if let Some(eol_comment) = inner_pairs.next() {
